@@ -14,6 +14,72 @@ pub open spec fn tags_ok<C: ServerContext>(d: ApiDescription<C>, e: ApiEndpoint<
             || forall|i: int| 0 <= i < e.tags@.len() ==> d.tag_config.tags@.contains_key(#[trigger] e.tags@[i]))
     )
 }
+// ---- CHECKED: C02 "path variables that differ from the handler's path parameters" ----
+/// the variable a template segment declares, if any
+pub open spec fn var_of(s: PathSegment) -> Option<String> {
+    match s { PathSegment::VarnameSegment(v) => Some(v), PathSegment::VarnameWildcard(v) => Some(v), PathSegment::Literal(_) => None }
+}
+/// the path parameter a handler parameter names, if any
+pub open spec fn path_name(m: ApiEndpointParameterMetadata) -> Option<String> {
+    match m { ApiEndpointParameterMetadata::Path(n) => Some(n), _ => None }
+}
+pub open spec fn is_template_var(path: Seq<char>, y: String) -> bool {
+    exists|i: int| 0 <= i < template_of(path).len() && var_of(seg_of(#[trigger] template_of(path)[i])) == Some(y)
+}
+pub open spec fn is_handler_path_param(ps: Seq<ApiEndpointParameter>, y: String) -> bool {
+    exists|i: int| 0 <= i < ps.len() && path_name((#[trigger] ps[i]).metadata) == Some(y)
+}
+/// accepted iff the two sets of names are the same
+pub open spec fn path_parameters_ok<C: ServerContext>(e: ApiEndpoint<C>) -> bool {
+    forall|y: String| is_template_var(e.path@, y) <==> is_handler_path_param(e.parameters@, y)
+}
+
+// ---- CHECKED: C02 "a name used as both path and query parameter, a non-scalar path or query parameter" ----
+/// the template declares `n` as a single-segment variable / as a trailing wildcard
+pub open spec fn is_segment_var(path: Seq<char>, n: String) -> bool {
+    exists|i: int| 0 <= i < template_of(path).len() && seg_of(#[trigger] template_of(path)[i]) == PathSegment::VarnameSegment(n)
+}
+pub open spec fn is_wildcard_var(path: Seq<char>, n: String) -> bool {
+    exists|i: int| 0 <= i < template_of(path).len() && seg_of(#[trigger] template_of(path)[i]) == PathSegment::VarnameWildcard(n)
+}
+/// the (pre-generated) schema of a named parameter: scalar / list of strings, as type_util.rs decides
+pub open spec fn param_is_scalar(p: ApiEndpointParameter) -> bool {
+    p.schema is Static && scalar_schema(*p.schema->Static_schema, p.schema->Static_dependencies)
+}
+pub open spec fn param_is_string_list(p: ApiEndpointParameter) -> bool {
+    p.schema is Static && string_enum_schema(*p.schema->Static_schema, p.schema->Static_dependencies)
+}
+/// what one parameter must satisfy.  (If one name were declared both as a single segment and as a wildcard -- which
+/// HttpRouter::insert rejects later as a repeated name -- either declaration may be the one consulted.)
+pub open spec fn named_param_must(path: Seq<char>, p: ApiEndpointParameter) -> bool {
+    match p.metadata {
+        ApiEndpointParameterMetadata::Path(n) =>
+            (is_segment_var(path, n) && !is_wildcard_var(path, n) ==> param_is_scalar(p))
+            && (is_wildcard_var(path, n) && !is_segment_var(path, n) ==> param_is_string_list(p))
+            && (param_is_scalar(p) || param_is_string_list(p)),
+        ApiEndpointParameterMetadata::Query(n) => !is_template_var(path, n) && param_is_scalar(p),
+        _ => true,
+    }
+}
+pub open spec fn named_param_may(path: Seq<char>, p: ApiEndpointParameter) -> bool {
+    match p.metadata {
+        ApiEndpointParameterMetadata::Path(n) =>
+            (is_segment_var(path, n) ==> param_is_scalar(p)) && (is_wildcard_var(path, n) ==> param_is_string_list(p)),
+        ApiEndpointParameterMetadata::Query(n) => !is_template_var(path, n) && param_is_scalar(p),
+        _ => true,
+    }
+}
+/// precondition (an invariant of how endpoints are built, not checked by registration): path and query parameters
+/// carry pre-generated schemas ("Only body parameters should have unresolved schemas")
+pub open spec fn named_params_have_static_schemas(ps: Seq<ApiEndpointParameter>) -> bool {
+    forall|i: int| 0 <= i < ps.len() && !((#[trigger] ps[i]).metadata is Body) ==> ps[i].schema is Static
+}
+/// the decision of validate_named_parameters: between `must` (necessary) and `may` (sufficient); the two coincide
+/// whenever no name is declared both ways
+pub open spec fn named_parameters_ok<C: ServerContext>(e: ApiEndpoint<C>) -> bool {
+    forall|i: int| 0 <= i < e.parameters@.len() ==> named_param_must(e.path@, #[trigger] e.parameters@[i])
+}
+
 proof fn sentinel_key_model_consistent()
     ensures false
 {
